@@ -503,6 +503,20 @@ func opaqueKids() []*tree.Item {
 	}
 }
 
+// opaqueKidsAll: opaque content of every TTLV type, with empty values and an empty structure.
+func opaqueKidsAll() []*tree.Item {
+	return append(opaqueKids(),
+		&tree.Item{Tag: 0x540007, Kind: tree.KLong, Int: -(1 << 40)},
+		&tree.Item{Tag: 0x540008, Kind: tree.KBig, Big: new(big.Int).Lsh(big.NewInt(-5), 70)},
+		&tree.Item{Tag: 0x540009, Kind: tree.KDate, Int: 1700000000},
+		&tree.Item{Tag: 0x54000A, Kind: tree.KInterval, Int: 3600},
+		&tree.Item{Tag: 0x54000B, Kind: tree.KStruct},
+		&tree.Item{Tag: 0x54000C, Kind: tree.KText},
+		&tree.Item{Tag: 0x54000D, Kind: tree.KBytes},
+		&tree.Item{Tag: 0x54000E, Kind: tree.KBool},
+	)
+}
+
 func pvTree() *tree.Item {
 	return &tree.Item{Tag: kmip.TagProtocolVersion, Kind: tree.KStruct, Children: []*tree.Item{
 		{Tag: kmip.TagProtocolVersionMajor, Kind: tree.KInt, Int: 1}, {Tag: kmip.TagProtocolVersionMinor, Kind: tree.KInt, Int: 4}}}
@@ -805,9 +819,123 @@ func runDispatch(ctx *Ctx) {
 		e.runValue(&kmip.ResponseMessage{Header: kmip.ResponseHeader{ProtocolVersion: kmip.V1_4, BatchCount: 1},
 			BatchItem: []kmip.ResponseBatchItem{{Operation: kmip.Operation(b.Op), ResponsePayload: pl}}}, true, "adversarial-payload-under-other-op")
 	}
+	// ---- 6. operation codes that differ from a registered one only in their high bytes (a registry indexed by
+	// a truncated code, or compared after a narrowing conversion, would take them for the registered operation) ----
+	for _, o := range kmip.VerifDumpOperations() {
+		for _, hi := range []uint32{0x100, 0x10000, 0x01000000, 0x80000000} {
+			op := uint32(o.Operation) | hi
+			if e.registered[op] {
+				continue
+			}
+			for _, response := range []bool{false, true} {
+				ptag := kmip.TagRequestPayload
+				if response {
+					ptag = kmip.TagResponsePayload
+				}
+				pl := &tree.Item{Tag: ptag, Kind: tree.KStruct, Children: opaqueKidsAll()}
+				e.runTree(messageTree(response, op, pl), response, "ok", true, "unregistered-op-high-bits")
+			}
+		}
+	}
+
+	// ---- 7. names that are NOT standard attribute names but close to one (surrounding blanks, case, a prefix,
+	// a suffix): unknown to the library, hence opaque whatever the value, re-encoding to the identical bytes ----
+	for _, std := range []string{"Cryptographic Length", "Object Type", "Name", "State", "Comment", "Activation Date", "Digest", "Fresh"} {
+		variants := []string{" " + std, std + " ", " " + std + " ", strings.ToLower(std), strings.ToUpper(std), std + "2", std[:len(std)-1],
+			strings.ReplaceAll(std, " ", "  "), strings.ReplaceAll(std, " ", "_"), strings.ReplaceAll(std, " ", ""), "X-" + std, std + ".", "z-" + std}
+		seen := map[string]bool{}
+		for _, nm := range variants {
+			if _, isStd := registeredAttrType(kmip.AttributeName(nm)); isStd || seen[nm] {
+				continue
+			}
+			seen[nm] = true
+			for _, ty := range []int{7, 2, 5, 6, 9, 1} {
+				val := scalarSample(ty, 0)
+				if ty == 1 {
+					val = &tree.Item{Tag: kmip.TagAttributeValue, Kind: tree.KStruct, Children: opaqueKids()}
+				}
+				pl := &tree.Item{Tag: kmip.TagRequestPayload, Kind: tree.KStruct, Children: []*tree.Item{
+					{Tag: kmip.TagUniqueIdentifier, Kind: tree.KText, Data: []byte("id")}, attrTree(nm, val)}}
+				e.runTree(messageTree(false, uint32(kmip.OperationAddAttribute), pl), false, "ok", true, "near-standard-attribute-name")
+			}
+		}
+	}
+
+	// ---- 8. the object matrix: every payload carrying a managed object (Get / Export response, Register / Import
+	// request) x every registered object on the wire x the object type announced next to it: the same type
+	// (accepted, decoded to the registered Go type), every OTHER registered type (error), and unregistered
+	// types (error — never a value): 0, the smallest unregistered code, 0x3F, 0xFFFFFFFF and the codes that
+	// differ from the wire object's own type only in their high bytes ----
+	{
+		po := &popCfg{r: r, s: s, fill: 1, respectGating: true, textMode: 2, extTags: true}
+		regObj := map[uint32]bool{}
+		for _, o := range s.Objects {
+			regObj[o.ObjectType] = true
+		}
+		smallest := uint32(1)
+		for regObj[smallest] {
+			smallest++
+		}
+		objTrees := map[uint32]*tree.Item{}
+		for _, o := range s.Objects {
+			obj, err := kmip.NewObjectForType(kmip.ObjectType(o.ObjectType))
+			if err != nil {
+				continue
+			}
+			po.populate(reflect.ValueOf(obj).Elem())
+			if b, pn := guard("MarshalTTLV", func() []byte { return ttlv.MarshalTTLV(obj) }); pn == "" {
+				if it, err := tree.Decode(b); err == nil {
+					objTrees[o.ObjectType] = it
+				}
+			}
+		}
+		otItem := func(v uint32) *tree.Item { return &tree.Item{Tag: kmip.TagObjectType, Kind: tree.KEnum, Int: int64(v)} }
+		carriers := []struct {
+			name     string
+			response bool
+			op       kmip.Operation
+			kids     func(ot uint32, obj *tree.Item) []*tree.Item
+		}{
+			{"get", true, kmip.OperationGet, func(ot uint32, obj *tree.Item) []*tree.Item { return []*tree.Item{otItem(ot), uid, obj} }},
+			{"export", true, kmip.OperationExport, func(ot uint32, obj *tree.Item) []*tree.Item { return []*tree.Item{otItem(ot), uid, other, obj} }},
+			{"register", false, kmip.OperationRegister, func(ot uint32, obj *tree.Item) []*tree.Item {
+				return []*tree.Item{otItem(ot), {Tag: kmip.TagTemplateAttribute, Kind: tree.KStruct}, obj}
+			}},
+			{"import", false, kmip.OperationImport, func(ot uint32, obj *tree.Item) []*tree.Item { return []*tree.Item{uid, other, otAttr(ot), obj} }},
+		}
+		for _, c := range carriers {
+			ptag := kmip.TagRequestPayload
+			if c.response {
+				ptag = kmip.TagResponsePayload
+			}
+			for _, wo := range s.Objects {
+				obj := objTrees[wo.ObjectType]
+				if obj == nil {
+					continue
+				}
+				msg := func(ot uint32) *tree.Item {
+					return messageTree(c.response, uint32(c.op), &tree.Item{Tag: ptag, Kind: tree.KStruct, Children: c.kids(ot, obj)})
+				}
+				e.runTree(msg(wo.ObjectType), c.response, "ok", false, "object-matrix-same-type")
+				for _, ao := range s.Objects {
+					if ao.ObjectType != wo.ObjectType {
+						e.runTree(msg(ao.ObjectType), c.response, "err", false, "object-matrix-other-type")
+					}
+				}
+				for _, u := range []uint32{0, smallest, 0x3F, 0xFFFFFFFF, wo.ObjectType | 0x100, wo.ObjectType | 0x10000, wo.ObjectType | 0x80000000} {
+					if !regObj[u] {
+						e.runTree(msg(u), c.response, "err", false, "object-matrix-unregistered-type")
+					}
+				}
+				e.ctx.Res.Count("dispatch.object-matrix." + c.name)
+			}
+		}
+	}
+
 	// coverage floor: every directed class must have produced decodes in the three encodings
 	var missing []string
-	for _, class := range []string{"unregistered-op", "opaque-attribute", "import-wellformed", "import-no-object-type", "conforming"} {
+	for _, class := range []string{"unregistered-op", "opaque-attribute", "import-wellformed", "import-no-object-type", "conforming",
+		"unregistered-op-high-bits", "near-standard-attribute-name", "object-matrix-same-type", "object-matrix-other-type", "object-matrix-unregistered-type"} {
 		for _, codec := range []string{"ttlv", "xml", "json"} {
 			if ctx.Res.Distribution["dispatch."+class+"."+codec+".ok"]+ctx.Res.Distribution["dispatch."+class+"."+codec+".err"] == 0 {
 				missing = append(missing, class+"/"+codec)
